@@ -40,14 +40,19 @@ theorem tie_path_creatable :
 theorem tie_path_creatable_parent :
     Jap.Gen.SaveOrder.pathCreatableParent = "os.path.realpath(os.path.join(abs_path, '..'))" := by decide
 
-/-- the fsspec block of `save`, with its guards: probe (`Path(mode="sw")`), `except TypeError: pass`,
-    `NotImplementedError` for multi-file AFTER the probe, `fsspec.open` BEFORE `dump` — the order `saveFsspec` implements -/
+/-- the fsspec block of `save`, with its guards: recognition by `Path(mode="sc")`, `except TypeError: pass`,
+    `NotImplementedError` for multi-file FIRST, overwrite check (`fs.isfile`), `dump` BEFORE `fsspec.open` — the order
+    `saveFsspec` implements (fixes 22a2e9a, 8a0a805) -/
 theorem tie_fsspec_order : Jap.Gen.SaveOrder.fsspecSteps = modelFsspecSteps := by decide
+/-- … and it is not the order of the regression record `saveFsspecOld` any more -/
+theorem tie_fsspec_order_not_old : Jap.Gen.SaveOrder.fsspecSteps ≠ oldFsspecSteps := by decide
 /-- the block sits between the format check and `Path(mode="fc")` -/
 theorem tie_fsspec_position :
     Jap.Gen.SaveOrder.saveTopLevel = ["format", "fsspec", "path_fc", "check_overwrite", "split"] := by decide
-/-- `Path(mode="sw")` probes an fsspec path by opening it for WRITING and closing it (`saveFsspec`: `fs.put path ""`) -/
+/-- `Path(mode=…)` opens an fsspec path only for the r/w letters of the mode; "sc" has none: recognition does not touch the file -/
 theorem tie_fsspec_probe : Jap.Gen.SaveOrder.pathFsspecProbe = modelFsspecProbe := by decide
+/-- the overwrite check of the block tests the file `path_sc.absolute` names, the open opens `path` (the same URL) -/
+theorem tie_fsspec_check_and_open_same_file : Jap.Gen.SaveOrder.fsspecFileExprs = modelFsspecFileExprs := by decide
 /-- every `check_overwrite(p)` tests `p.absolute` (tie_check_overwrite) and the `open` that follows it opens the same
     `p.absolute`; sub-files are `basename` of the path they were loaded from — so check and open go through the same
     `Env.resolve` and the model may identify a spelling with the file it stands for -/
@@ -589,52 +594,174 @@ theorem C18_alias_relative_spelling_refused :
     (∀ p ∈ ["./main.yaml", "../d/main.yaml", "/d/main.yaml"],
       saveR env fs { path := p, multifile := false, dump := .text "new" } = (.error .refuse, fs)) := by decide
 
-/-! ## the fsspec branch (`memory://…`, `s3://…`: any path `Path(mode="sw")` recognises) — `saveFsspec`
+/-! ## the fsspec branch (`memory://…`, `s3://…`: any path `Path(mode="sc")` recognises) — `saveFsspec`
 
-C18 at full strength is FALSE on this branch in both halves (findings C18-fsspec-silent-overwrite and
-C18-fsspec-truncates-on-failure):
+Since fixes 22a2e9a (F60) and 8a0a805 (F61) both halves of C18 hold on this branch at FULL strength, and they are stated
+below over BOTH branches at once (`saveAny`).  The branch as it was (`saveFsspecOld`) is kept as a regression record
+with its refutations (former findings C18-fsspec-silent-overwrite, C18-fsspec-truncates-on-failure). -/
 
-  theorem C18_no_overwrite_fsspec : i.overwrite = false → (fs.get q).isSome → (saveFsspec fs i).2.get q = fs.get q
-  theorem C18_all_or_nothing_fsspec : (saveFsspec fs i).1 = .error e → e ≠ .io → (saveFsspec fs i).2 = fs
--/
+/-- C18_no_overwrite on the fsspec branch, full strength -/
+theorem C18_no_overwrite_fsspec (fs : FS) (i : FInput) (how : i.overwrite = false)
+    (q : String) (hq : (fs.get q).isSome) : (saveFsspec fs i).2.get q = fs.get q := by
+  unfold saveFsspec
+  split
+  · rfl
+  split
+  · rfl
+  by_cases hp : (fs.get i.path).isSome
+  · simp [refuses, how, hp]
+  · have hne : q ≠ i.path := by intro h; subst h; exact hp hq
+    have hr : refuses i.overwrite fs i.path = false := by simp [refuses, how, hp]
+    simp only [hr, Bool.false_eq_true, ↓reduceIte]
+    cases i.dump with
+    | fail e => rfl
+    | text s => exact writeFile_frame _ _ _ _ _ hne
+
+/-- C18_all_or_nothing on the fsspec branch, full strength: whatever makes `save` fail — unknown format, multifile
+    requested, refusal to overwrite, invalid configuration, unserialisable value, `fsspec.open` failing — nothing has
+    been created, emptied or changed (`.io`, the back-end failing in the middle of the write, is outside as on the
+    local branch) -/
+theorem C18_all_or_nothing_fsspec (fs : FS) (i : FInput) (e : Err)
+    (h : (saveFsspec fs i).1 = .error e) (hio : e ≠ .io) : (saveFsspec fs i).2 = fs := by
+  unfold saveFsspec at *
+  split
+  · rfl
+  split
+  · rfl
+  split
+  · rfl
+  rename_i h1 h2 h3
+  simp only [h1, h2, h3, Bool.false_eq_true, ↓reduceIte] at h
+  cases hd : i.dump with
+  | fail e' => rfl
+  | text s =>
+    simp only [hd] at h ⊢
+    exact (writeFile_error_clean _ _ _ _ _ h hio).1
+
+/-- ONE theorem over both branches: without `overwrite`, whichever branch a call of `save` takes (local single- or
+    multi-file, fsspec), whatever the fault vector, success or failure — every existing file keeps its content -/
+theorem C18_no_overwrite_any (fs : FS) (t : Target) (how : t.overwrite = false)
+    (q : String) (hq : (fs.get q).isSome) : (saveAny fs t).2.get q = fs.get q := by
+  cases t with
+  | loc env i => exact C18_no_overwrite env fs i how q hq
+  | fsspec i => exact C18_no_overwrite_fsspec fs i how q hq
+
+/-- ONE theorem over both branches: a call that writes at most one file (local single-file mode, or any call on the
+    fsspec branch) and fails for any reason other than the OS failing in the middle of the write leaves the file
+    system exactly as it was -/
+theorem C18_all_or_nothing_single_any (fs : FS) (t : Target) (e : Err) (hs : t.singleFile = true)
+    (h : (saveAny fs t).1 = .error e) (hio : e ≠ .io) : (saveAny fs t).2 = fs := by
+  cases t with
+  | loc env i => exact C18_all_or_nothing_single env fs i e (by simpa [Target.singleFile] using hs) h hio
+  | fsspec i => exact C18_all_or_nothing_fsspec fs i e h hio
+
+/-- the literal wording of the property over both branches -/
+theorem C18_all_or_nothing_single_any_invalid_or_unserialisable (fs : FS) (t : Target) (e : Err)
+    (hs : t.singleFile = true) (h : (saveAny fs t).1 = .error e) (he : e = .invalid ∨ e = .unserialisable) :
+    (saveAny fs t).2 = fs :=
+  C18_all_or_nothing_single_any fs t e hs h (by rcases he with rfl | rfl <;> decide)
+
+/-- on the fsspec branch the outcome and the files are those of the local single-file branch in a directory where
+    every path is creatable — the two branches are ONE transaction (what the repair bought), except that multi-file
+    mode is refused up front -/
+theorem C18_fsspec_eq_local_single (fs : FS) (i : FInput) (hm : i.multifile = false) :
+    saveFsspec fs i =
+      save {} fs { path := i.path, overwrite := i.overwrite, multifile := false, formatOk := i.formatOk,
+                   dump := i.dump, wr := i.wr } := by
+  unfold saveFsspec save
+  simp [hm, pathFc]
+
+/-- multi-file mode on an fsspec path: refused, and NOTHING has been touched (it used to empty the target) -/
+theorem C18_fsspec_multifile_refused_clean (fs : FS) (i : FInput) (hf : i.formatOk = true) (hm : i.multifile = true) :
+    saveFsspec fs i = (.error .notImplemented, fs) := by
+  unfold saveFsspec
+  simp [hf, hm]
+
+/-- frame on the fsspec branch: nothing but the target is ever touched -/
+theorem C18_fsspec_frame (fs : FS) (i : FInput) (q : String) (hq : q ≠ i.path) :
+    (saveFsspec fs i).2.get q = fs.get q := by
+  unfold saveFsspec
+  split
+  · rfl
+  split
+  · rfl
+  split
+  · rfl
+  cases i.dump with
+  | fail e => rfl
+  | text s => exact writeFile_frame _ _ _ _ _ hq
+
+/-- success on the fsspec branch: the target holds exactly the dump text -/
+theorem C18_fsspec_success_writes (fs : FS) (i : FInput) (h : (saveFsspec fs i).1 = .ok ()) :
+    ∃ t, i.dump = .text t ∧ (saveFsspec fs i).2.get i.path = some t := by
+  unfold saveFsspec at *
+  split at h
+  · simp at h
+  split at h
+  · simp at h
+  split at h
+  · simp at h
+  rename_i h1 h2 h3
+  simp only [h1, h2, h3, Bool.false_eq_true, ↓reduceIte]
+  cases hd : i.dump with
+  | fail e => simp [hd] at h
+  | text s =>
+    simp only [hd] at h ⊢
+    exact ⟨s, rfl, by rw [writeFile_ok _ _ _ _ h]; exact get_put_same _ _ _⟩
 
 def witnessFsspec : FInput := { path := "memory://c.yaml", multifile := false, dump := .text "a: 1\n" }
 
-/-- `overwrite` not requested, existing file: replaced, and `save` reports success -/
-theorem C18_fsspec_silent_overwrite_witness :
-    witnessFsspec.overwrite = false ∧
-    saveFsspec [("memory://c.yaml", "precious: 1\n")] witnessFsspec = (.ok (), [("memory://c.yaml", "a: 1\n")]) := by decide
+/-- non-vacuity: the three former witnesses on the branch as it is now — refused / untouched / untouched -/
+example : saveFsspec [("memory://c.yaml", "precious: 1\n")] witnessFsspec
+    = (.error .refuse, [("memory://c.yaml", "precious: 1\n")]) := by decide
+example : saveFsspec [("memory://c.yaml", "precious: 1\n")] { witnessFsspec with overwrite := true, dump := .fail .invalid }
+    = (.error .invalid, [("memory://c.yaml", "precious: 1\n")]) := by decide
+example : saveFsspec [("memory://c.yaml", "precious: 1\n")] { path := "memory://c.yaml", dump := .text "a: 1\n" }
+    = (.error .notImplemented, [("memory://c.yaml", "precious: 1\n")]) := by decide
+/-- `overwrite = true` does replace, next to another file that stays -/
+example : saveFsspec [("memory://c.yaml", "p"), ("memory://d.yaml", "q")] { witnessFsspec with overwrite := true }
+    = (.ok (), [("memory://c.yaml", "a: 1\n"), ("memory://d.yaml", "q")]) := by decide
+/-- `fsspec.open` failing: nothing created -/
+example : saveFsspec [("memory://d.yaml", "q")] { witnessFsspec with wr := { openOk := false } }
+    = (.error .os, [("memory://d.yaml", "q")]) := by decide
 
-theorem C18_no_overwrite_fsspec_fails :
+/-! ### regression record: the branch BEFORE fixes 22a2e9a / 8a0a805 (`saveFsspecOld`) refuted both halves -/
+
+/-- `overwrite` not requested, existing file: replaced, and `save` reported success (former finding
+    C18-fsspec-silent-overwrite) -/
+theorem C18_fsspec_old_silent_overwrite_witness :
+    witnessFsspec.overwrite = false ∧
+    saveFsspecOld [("memory://c.yaml", "precious: 1\n")] witnessFsspec = (.ok (), [("memory://c.yaml", "a: 1\n")]) := by decide
+
+theorem C18_no_overwrite_fsspec_old_fails :
     ¬ (∀ (fs : FS) (i : FInput) (q : String), i.overwrite = false → (fs.get q).isSome →
-        (saveFsspec fs i).2.get q = fs.get q) := by
+        (saveFsspecOld fs i).2.get q = fs.get q) := by
   intro h
   have := h [("memory://c.yaml", "precious: 1\n")] witnessFsspec "memory://c.yaml" (by decide) (by decide)
   exact absurd this (by decide)
 
-/-- `overwrite` is not looked at on this branch -/
-theorem C18_fsspec_overwrite_ignored (fs : FS) (i : FInput) (b : Bool) :
-    saveFsspec fs { i with overwrite := b } = saveFsspec fs i := rfl
+/-- `overwrite` was not looked at -/
+theorem C18_fsspec_old_overwrite_ignored (fs : FS) (i : FInput) (b : Bool) :
+    saveFsspecOld fs { i with overwrite := b } = saveFsspecOld fs i := rfl
 
-/-- invalid configuration, `overwrite=True`: the file is emptied (the pre-fix F15 order lives on here, and the probe of
-    `Path(mode="sw")` has truncated the file even before) -/
-theorem C18_all_or_nothing_fsspec_fails :
-    ¬ (∀ (fs : FS) (i : FInput) (e : Err), (saveFsspec fs i).1 = .error e → e ≠ .io → (saveFsspec fs i).2 = fs) := by
+/-- invalid configuration, `overwrite=True`: the file was emptied (former finding C18-fsspec-truncates-on-failure) -/
+theorem C18_all_or_nothing_fsspec_old_fails :
+    ¬ (∀ (fs : FS) (i : FInput) (e : Err), (saveFsspecOld fs i).1 = .error e → e ≠ .io → (saveFsspecOld fs i).2 = fs) := by
   intro h
   have := h [("memory://c.yaml", "precious: 1\n")] { witnessFsspec with overwrite := true, dump := .fail .invalid } .invalid
     (by decide) (by decide)
   exact absurd this (by decide)
 
-/-- `multifile` left at its default: `NotImplementedError` — AFTER the probe has emptied the file -/
-theorem C18_fsspec_multifile_default_truncates :
-    saveFsspec [("memory://c.yaml", "precious: 1\n")] { path := "memory://c.yaml", dump := .text "a: 1\n" }
+/-- `multifile` left at its default: `NotImplementedError` — AFTER the probe had emptied the file -/
+theorem C18_fsspec_old_multifile_default_truncates :
+    saveFsspecOld [("memory://c.yaml", "precious: 1\n")] { path := "memory://c.yaml", dump := .text "a: 1\n" }
       = (.error .notImplemented, [("memory://c.yaml", "")]) := by decide
 
-/-- exact characterisation of the branch: EVERY failure past the format check and the probe leaves the target
+/-- exact characterisation of the old branch: EVERY failure past the format check and the probe left the target
     existing and empty, whatever it held -/
-theorem C18_fsspec_failure_empties (fs : FS) (i : FInput) (e : Err) (hf : i.formatOk = true) (hp : i.probeOk = true)
-    (h : (saveFsspec fs i).1 = .error e) : (saveFsspec fs i).2.get i.path = some "" := by
-  unfold saveFsspec at *
+theorem C18_fsspec_old_failure_empties (fs : FS) (i : FInput) (e : Err) (hf : i.formatOk = true) (hp : i.probeOk = true)
+    (h : (saveFsspecOld fs i).1 = .error e) : (saveFsspecOld fs i).2.get i.path = some "" := by
+  unfold saveFsspecOld at *
   simp only [hf, hp, Bool.not_true, Bool.false_eq_true, ↓reduceIte] at h ⊢
   cases hm : i.multifile with
   | true => simp [get_put_same]
@@ -652,54 +779,6 @@ theorem C18_fsspec_failure_empties (fs : FS) (i : FInput) (e : Err) (hf : i.form
         cases hw : i.wr.writeOk with
         | false => simp [get_put_same]
         | true => simp [hw] at h
-
-/-- C18_all_or_nothing_fsspec_partial: the failures that leave everything alone are exactly an unknown format and a
-    failing probe (both precede the first open) -/
-theorem C18_all_or_nothing_fsspec_partial (fs : FS) (i : FInput) (h : i.formatOk = false ∨ i.probeOk = false) :
-    (∃ e, (saveFsspec fs i).1 = .error e) ∧ (saveFsspec fs i).2 = fs := by
-  unfold saveFsspec
-  rcases h with h | h
-  · simp [h]
-  · cases hf : i.formatOk <;> simp [h]
-
-/-- frame on the fsspec branch: nothing but the target is ever touched -/
-theorem C18_fsspec_frame (fs : FS) (i : FInput) (q : String) (hq : q ≠ i.path) :
-    (saveFsspec fs i).2.get q = fs.get q := by
-  unfold saveFsspec
-  split
-  · rfl
-  split
-  · rfl
-  dsimp only
-  split
-  · exact get_put_other _ _ _ _ hq
-  · rw [openThenWrite_frame _ _ _ _ _ hq]; exact get_put_other _ _ _ _ hq
-
-/-- success on the fsspec branch: the target holds exactly the dump text -/
-theorem C18_fsspec_success_writes (fs : FS) (i : FInput) (h : (saveFsspec fs i).1 = .ok ()) :
-    ∃ t, i.dump = .text t ∧ (saveFsspec fs i).2.get i.path = some t := by
-  unfold saveFsspec at *
-  split at h
-  · simp at h
-  split at h
-  · simp at h
-  dsimp only at h ⊢
-  split at h
-  · simp at h
-  · rename_i h1 h2 h3
-    simp only [h1, h2, h3, Bool.false_eq_true, ↓reduceIte]
-    obtain ⟨t, ht, hfs⟩ := openThenWrite_ok _ _ _ _ h
-    exact ⟨t, ht, by rw [hfs]; exact get_put_same _ _ _⟩
-
-/-- non-vacuity of the partial theorem and of the frame: unknown format on an existing file next to another one -/
-example :
-    saveFsspec [("memory://c.yaml", "p"), ("memory://d.yaml", "q")] { witnessFsspec with formatOk := false }
-      = (.error .format, [("memory://c.yaml", "p"), ("memory://d.yaml", "q")]) := by decide
-example :
-    (saveFsspec [("memory://c.yaml", "p"), ("memory://d.yaml", "q")] witnessFsspec).2.get "memory://d.yaml" = some "q" := by decide
-/-- a failing probe (unknown bucket, no permission): PathError, nothing touched -/
-example :
-    saveFsspec [("memory://c.yaml", "p")] { witnessFsspec with probeOk := false } = (.error .path, [("memory://c.yaml", "p")]) := by decide
 
 /-! ## non-vacuity -/
 
